@@ -29,6 +29,7 @@ TReset == /\ Is("reset")
           /\ used' = {} /\ files' = EmptyFn /\ dev' = {}
 
 TCreateCol  == Is("createcol")  /\ CreateColumn(Ev.c, Ev.n, [k |-> Ev.k, m |-> Ev.m])
+TDropCol    == Is("dropcol")    /\ DropColumn(Ev.c, Ev.n)
 TCreateIdx  == Is("createidx")  /\ CreateIndex(Ev.c, Ev.n, Ev.col, Ev.p)
 TDropIdx    == Is("dropidx")    /\ DropIndex(Ev.c, Ev.n)
 TCreateSort == Is("createsort") /\ CreateSort(Ev.c, Ev.n, Ev.col)
@@ -180,7 +181,7 @@ TDump ==
              /\ Len(seq) = Cardinality(items)
              /\ {seq[i][1] : i \in DOMAIN seq} = {it[2] : it \in items}
              /\ \A i \in 1..(Len(seq) - 1) : SeqLeq(keyOf(seq[i][1]), keyOf(seq[i + 1][1]))
-             /\ \A i \in DOMAIN seq : seq[i][2] = ValueAt(S, S.sx[n].col, seq[i][1])[2]
+             /\ S.sx[n].col # Detached => \A i \in DOMAIN seq : seq[i][2] = ValueAt(S, S.sx[n].col, seq[i][1])[2]
 
 \* ---- diagnostics (development aid, used by bin/explain): what differs between the event and the model state
 DumpDiag ==
@@ -213,7 +214,7 @@ ReadBackDiag ==
 InvDiag == ReadBack \/ PrintT(<<"READBACK", ReadBackDiag, dev>>)
 Diag == IF Ev.e = "dump" THEN DumpDiag ELSE IF Ev.e = "apply" THEN ApplyDiag ELSE <<"event", Ev, "txn", txn>>
 
-TNext == \/ TReset \/ TDrop \/ TRes \/ TLogEnd \/ TCreateCol \/ TCreateIdx \/ TDropIdx \/ TCreateSort \/ TCreateTrig \/ TDropTrig \/ TTransport
+TNext == \/ TReset \/ TDrop \/ TRes \/ TLogEnd \/ TCreateCol \/ TDropCol \/ TCreateIdx \/ TDropIdx \/ TCreateSort \/ TCreateTrig \/ TDropTrig \/ TTransport
          \/ TBulkIns \/ TBulkDel \/ TBulkReplay
          \/ TBegin \/ TSel \/ TReserve \/ TInsFail \/ TWrite \/ TDelete \/ TDeleteAll \/ TFilter \/ TCount \/ TRange \/ TAgg \/ TDelMiss \/ TKDelete \/ TKeyCheck \/ TKeyEnd \/ TRollback \/ TCommitStart
          \/ TApply \/ TAfter \/ TSnap \/ TRestore \/ TReplay \/ TRead \/ TDump
